@@ -10,6 +10,7 @@ import (
 	authkeeper "github.com/cosmos/cosmos-sdk/x/auth/keeper"
 	authtypes "github.com/cosmos/cosmos-sdk/x/auth/types"
 	bankkeeper "github.com/cosmos/cosmos-sdk/x/bank/keeper"
+	banktypes "github.com/cosmos/cosmos-sdk/x/bank/types"
 	distrtypes "github.com/cosmos/cosmos-sdk/x/distribution/types"
 
 	zz "github.com/haqq-network/haqq/zzverif"
@@ -18,6 +19,17 @@ import (
 //verif:override (github.com/cosmos/cosmos-sdk/x/bank/keeper.BaseSendKeeper).SendCoinsFromModuleToModule -> c14Send
 //verif:override (github.com/cosmos/cosmos-sdk/x/bank/keeper.BaseKeeper).SendCoinsFromModuleToModule -> c14Send2
 //verif:override (github.com/cosmos/cosmos-sdk/x/bank/keeper.BaseKeeper).BurnCoins -> c14Burn
+//verif:override (github.com/cosmos/cosmos-sdk/x/bank/keeper.BaseSendKeeper).GetSendEnabledEntry -> c14SendEnabled
+
+// denominations with an explicit SendEnabled=false entry (x/bank MsgSetSendEnabled): module-to-module moves ignore it
+var c14Frozen = map[string]bool{}
+
+func c14SendEnabled(k bankkeeper.BaseSendKeeper, ctx sdk.Context, denom string) (banktypes.SendEnabled, bool) {
+	if c14Frozen[denom] {
+		return banktypes.SendEnabled{Denom: denom, Enabled: false}, true
+	}
+	return banktypes.SendEnabled{}, false
+}
 
 var c14Denoms = []string{"aISLM", "aLIQUID1"}
 var c14Modules = []string{"gov", "bonded_tokens_pool", "not_bonded_tokens_pool", "distribution", "erc20", "coinomics"}
@@ -119,6 +131,15 @@ func VerifC14_Burn() {
 			for _, d := range c14Denoms {
 				c14.set(m, d, pre[m][d])
 				c14.supply[d] = c14.supply[d].Add(pre[m][d])
+			}
+		}
+	}
+	c14Frozen = map[string]bool{}
+	for _, d := range c14Denoms {
+		if zz.AnyBool("sendDisabled." + d) {
+			c14Frozen[d] = true
+			if native != nil {
+				native.SetSendEnabled(ctx, d, false)
 			}
 		}
 	}
